@@ -11,9 +11,15 @@ from . import c05
 from .c04 import ScriptedChoice
 
 ID = "C19"
-LEAN_MODULE = "CKT.Props.C19"
+LEAN_MODULE = "CKT.Props.C19Moves"
 THEOREMS = [
     "CKT.C19.optimizeResets_wire", "CKT.C19.optimizeResets_shape", "CKT.C19.optimizeResets_only",
+    # T19.1 (Props/C19Moves): wire level, splice level, model level with decidable hypotheses, Move basis, both clauses together
+    "CKT.C19.shape_clean", "CKT.C19.reset_free_of_shape", "CKT.C19.cond_shape", "CKT.C19.good_of_admissible", "CKT.C19.spliced_shape",
+    "CKT.C19.no_reuse_reset_free", "CKT.C19.no_reuse_reset_free_model", "CKT.C19.no_reuse_reset_free_dummy",
+    "CKT.C19.moveNameBasis_moveLike", "CKT.C19.moveLike1_of_basis", "CKT.C19.condB_sound", "CKT.C19.admissibleB_sound",
+    "CKT.C19.noReuseB_sound", "CKT.C19.experimentFor_reset_free", "CKT.C19.no_reuse_reset_free_and_same_statistics",
+    "CKT.C12Sem.optimizeResets_obs",
 ]
 RULE = ("circuits on 1-4 qubits with 1-3 wire-cut markers at any position (first/last on a wire, interleaved) pushed through cut_wires -> "
         "expand_observables -> partition_problem (automatic / explicit) -> generate_cutting_experiments, observables incl. identity on whole "
@@ -190,7 +196,7 @@ def _real(payload):
     parts = [{"label": k, "circuit": canon.canon_circuit(pp.subcircuits[lab], t), "groups": c05._groups(pp.subobservables[lab])}
              for k, lab in enumerate(keys)]
     res = [[keys.index(lab), [c05._strip(canon.canon_circuit(c)) for c in cs]] for lab, cs in exps.items()]
-    line = {"op": "c05.generate", "bases": t.canon(), "parts": parts, "separated": not getattr(pp, "single", False),
+    line = {"op": "c19.generate", "bases": t.canon(), "parts": parts, "separated": not getattr(pp, "single", False),
             "weights": captured.get("weights", [])}
     return {"ok": {"experiments": res, "coefficients": [[frac(c), w.name] for c, w in coeffs]}}, line
 
@@ -201,7 +207,7 @@ def model_line(kind, payload):
     except ValueError:
         res, line = {"error": "ValueError"}, None
     _cache[_key(payload)] = res
-    return line or {"op": "c05.generate", "bases": [], "parts": [], "separated": True, "weights": []}
+    return line or {"op": "c19.generate", "bases": [], "parts": [], "separated": True, "weights": []}
 
 
 def run_real(kind, payload):
@@ -211,8 +217,34 @@ def run_real(kind, payload):
     return r
 
 
-model_canon = c05.model_canon
-compare = c05.compare
+def model_canon(kind, payload, out):
+    m = c05.model_canon(kind, payload, out)
+    m["no_reuse"] = out.get("no_reuse")
+    return m
+
+
+def compare(kind, payload, real, model):
+    why = c05.compare(kind, payload, real, {k: v for k, v in model.items() if k != "no_reuse"})
+    if why or "error" in real or "error" in model:
+        return why
+    nr = model.get("no_reuse")
+    if not isinstance(nr, list) or len(nr) != len(real["ok"]["experiments"]):
+        return f"no-re-use verdicts missing or of wrong shape: {str(nr)[:200]}"
+    for (lab, circs), verdicts in zip(real["ok"]["experiments"], nr):
+        if not isinstance(verdicts, list):
+            return f"no-re-use verdicts refused for partition {lab}: {verdicts}"
+        flat = [v for per_w in verdicts for v in per_w]
+        if len(flat) != len(circs):
+            return f"partition {lab}: {len(flat)} verdicts for {len(circs)} subexperiments"
+        for k, (v, c) in enumerate(zip(flat, circs)):
+            has_reset = any(i["name"] == "reset" for i in c["instrs"])
+            if v and has_reset:
+                # the theorem `experimentFor_reset_free` says this cannot happen in the model; the real code disagrees
+                return f"partition {lab} subexperiment {k}: the no-re-use hypotheses hold, yet the real subexperiment contains a reset"
+            if not v and payload["kind"] != "reuse_chain":
+                return (f"partition {lab} subexperiment {k}: no qubit is re-used in this workflow, but the decidable hypotheses of T19.1 "
+                        f"(noReuseExpB) are false: the theorem does not cover it")
+    return None
 
 
 def describe(kind, payload):
@@ -221,6 +253,7 @@ def describe(kind, payload):
     if "ok" in r:
         resets = sum(1 for _, cs in r["ok"]["experiments"] for c in cs for i in c["instrs"] if i["name"] == "reset")
     return {"kind": payload["kind"], "auto": payload["auto"], "N": str(payload["N"]),
+            "T19.1 hypotheses": ("hold" if (payload["kind"] != "reuse_chain") else "not required (qubits re-used)"),
             "resets_left": "refused" if resets < 0 else ("0" if resets == 0 else ">0")}
 
 
